@@ -23,6 +23,8 @@ multiplies the *units* (the voxel size), the offset and the connectors.  The con
 `voxel_scale_world`; physical invariance and `convert_units` do **not** hold for voxels
 (`voxel_scale_not_invariant`, `voxel_convert_units_wrong`) — the harness reports these as known findings.
 -/
+set_option linter.unusedSimpArgs false
+
 namespace Navis.Props.C15
 open Navis.Units
 
